@@ -62,6 +62,10 @@ CHECKS['C11'] = dict(tech='Hypothesis construction histories interpreted against
              text='Histories of wire creation, block instantiation, child creation, rename / reparent / reparentAndRename and port addition with small name pools: every conflicting call must raise, every well-formed call must not, and after every call the first driver, child and wire registered under a name must still be in place; checkIntegrity must raise iff some port is attached to an undriven ordinary wire. Every catalogue block with all inputs driven is accepted; with one driver removed or duplicated it is rejected at the right call. Exploration (sampled).',
              note='Trusted: the dictionary model and traversal in pbt/props/c11.py. BidirWire excluded; the loser of a conflict is not judged.',
              ref='DESIGN.md 2/C11')
+CHECKS['C06'] = dict(tech='Hypothesis netlists with out-of-range constants / stimulus / pokes and catalogue blocks at extreme operands; range invariant over every reachable wire at every observation point; independent reference reports whether masking mattered',
+             text='Every wire reachable from the HWSystem must hold an int in [0, 2^width) after simulator creation, after Wire.put, after every clk, inside a simulatorUpdated listener and in Waveform data, for generated netlists (negative / oversized constants, Sequence stimulus and pokes, Div/Mod zero-divisor branch) and for every catalogue block at extreme operands. Exploration (sampled).',
+             note='Trusted: wire enumeration in pbt/bench.py all_wires; the netgen reference only classifies non-triviality.',
+             ref='DESIGN.md 2/C06')
 NOT_APPLICABLE = {}
 
 def main():
